@@ -194,7 +194,8 @@ func readCurrentRegex(filePath string, ruleId string, chainOffset uint8) string 
 	foundRule := false
 	chainCount := uint8(0)
 	for index, line = range lines {
-		if !foundRule && idRegex.Match(line) {
+		// the id of a rule is looked for in its actions: text inside an `@rx` operand (of this or another rule) is not an id
+		if !foundRule && idRegex.Match(line) && !regex.RuleRxRegex.Match(line) {
 			foundRule = true
 			if chainOffset == 0 {
 				index--
